@@ -13,12 +13,16 @@
    positions, a final EOF), builds exactly compile e.  With C04_accepted_is_a_tree
    (whatever is accepted is compile of some tree) this is the statement that
    parser.go implements the precedence, associativity and projection-scope rules.
-   The step from text to tokens is the lexer (C14) and is exercised by the run:
-   every generated tree in minimal, fully parenthesised and randomly spaced
-   spelling. *)
+   (4) at the level of bytes (Proofs/LexText.v): every well-precedenced tree has
+   a text — its tokens in the Go spelling, each followed by one space — on which
+   Compile returns compile e and Search returns the denotation of e.  Other
+   spellings of the same tokens (no spaces, more spaces, parentheses) are the
+   lexer's business (C14) and are exercised by the run: every generated tree in
+   minimal, fully parenthesised and randomly spaced spelling. *)
 From Coq Require Import Floats.
 From JM Require Import Model.Base Model.Num Model.Value Model.JsonText Model.Lexer Model.Parser Model.Api
-     Spec.Grammar Proofs.TablesOk Proofs.ParserTotal Proofs.ParserComplete Inst.FloatNum Run.Checker.
+     Spec.Grammar Spec.Semantics Proofs.ValueFacts Proofs.TablesOk Proofs.ParserTotal Proofs.ParserComplete Proofs.InterpRefine Proofs.LexText
+     Inst.FloatNum Run.Checker.
 From JM Require Import gen.Tables.
 
 (* from loosest to tightest: pipe, or, and, comparators, flatten, wildcard and
@@ -72,6 +76,20 @@ Theorem C03_parse_render :
   forall e : expr, wp e = true -> parse_tokens (render lit_text e ++ [tk tEOF []]) = Ok (compile e).
 Proof. exact (parse_render lit_text lit_ok). Qed.
 
+(* from bytes: Compile on the spaced text of a well-precedenced tree is its AST;
+   texty: quoted names are valid UTF-8 and the literal texts have no dangling
+   backslash (both hold for what json.Marshal writes) *)
+Theorem C03_compile_of_text :
+  forall e : expr, wp e = true -> texty lit_text e = true ->
+    Api.compile (expr_text lit_text e) = Ok (compile e).
+Proof. exact (compile_expr_text lit_text lit_ok). Qed.
+
+Theorem C03_search_of_text :
+  forall (ord : obj -> obj), (forall m, Permutation.Permutation (ord m) m) ->
+  forall (e : expr) d, wp e = true -> texty lit_text e = true -> sem_ok e = true -> plain d = true ->
+    Api.search ord (expr_text lit_text e) d = eval ord e d.
+Proof. exact (search_expr_text lit_text lit_ok). Qed.
+
 (* fuel is immaterial: any two amounts that suffice give the same answer *)
 Theorem C03_fuel_independent :
   forall ts f f' bp i,
@@ -84,6 +102,8 @@ End C03.
 Print Assumptions C03_levels_are_ordered.
 Print Assumptions C03_parse_of_any_spelling.
 Print Assumptions C03_parse_render.
+Print Assumptions C03_compile_of_text.
+Print Assumptions C03_search_of_text.
 Print Assumptions C03_fuel_independent.
 Print Assumptions C03_binding_powers_realise_the_levels.
 Print Assumptions C03_call_sites_pass_the_right_level.
@@ -104,4 +124,17 @@ Example C03_example :
        (AOk (compile (ESub (ENot (idn "a")) (idn "b")))) &&
    aobs_match false (aobs_of (Api.compile (str "a[*].[x,y][0]")))
        (AOk (compile (EListProj (Some (idn "a")) (RDot (EIndex (Some (EMSList [idn "x"; idn "y"])) 0))))))%bool = true.
+Proof. vm_compute. reflexivity. Qed.
+
+(* the text-level theorem is not vacuous: a tree with a quoted name, a literal
+   containing a backtick, a negative index and a projection, its spaced text,
+   and Compile on that text *)
+Definition mtext (v : @value FloatNum) : bytes := match json_marshal v with Some t => t | None => [] end.
+Definition e_text : @expr FloatNum :=
+  EPipe (EValProj (Some (idn "a")) (RDot (ESub (EIdent true (str "b c")) (idn "c"))))
+        (EOr (ELit (VStr (str "x`y"))) (EIndex None (-1))).
+Example C03_text_example :
+  (wp e_text && texty mtext e_text &&
+   bytes_eqb (expr_text mtext e_text) (str "a . * . ""b c"" . c | `""x\`y""` || [ -1 ] ") &&
+   aobs_match false (aobs_of (Api.compile (expr_text mtext e_text))) (AOk (compile e_text)))%bool = true.
 Proof. vm_compute. reflexivity. Qed.
